@@ -21,9 +21,17 @@
   * the regenerated frequency tables span exactly one octave and follow equal temperament
     (PSG within 1 LSB, FM within 2 LSB per semitone; FM within 1 LSB is FALSE of the table, see
     the example below).
+  * `C07_tick_delivery`: the n-th `play_tick` of a fresh player delivers exactly the n-th tick of
+    the list machine over `perf` (first pass of the track);
+  * `C07_key_frame_partial` (+ `C07_update_ticks`, `C07_key_frame_start`): for FM channels of
+    tracks without slurs, each update writes a key-off iff a note/rest/end (or tie) is delivered
+    in its ticks and the key-on, last, iff a note (or tie) is delivered;
+  * `C07_pitch_value_partial`: the pitch words the model computes and writes, `fmPitch = fmWord`.
   What is NOT proved here and rests on the schedule oracle (Spec/Schedule run on every real
-  export by the check) and on the byte-exact correspondence: `tick_delivery`, `keyon_frame`,
-  `keyoff_frame`, `pitch_value`, `export_extent` — kept as `C07_full_statement`.
+  export by the check) and on the byte-exact correspondence: `export_extent`, the loop passes
+  after the first, slurred notes, PSG key-on/attenuation, the register-file replay of
+  `pitch_value`, and the composition of the per-update theorems into one statement over the log
+  — kept as `C07_full_statement`.
   Known finding (known_findings.txt, key `short-note`): at more than one tick per update the
   key-on of a note that ends inside the update it starts in is written after its key-off.
 -/
@@ -221,6 +229,39 @@ theorem C07_key_frame_start (d : Data) (id : Nat) (root : List Event) (hid : id 
   rw [if_pos hid]
   exact ⟨⟨rfl, rfl, rfl, hd, rfl⟩, rfl, rfl, rfl⟩
 
+/-- **Pitch value (partial: the values the model computes and writes; the register-file
+replay is left to the oracle).**  (1) A note sets `note_pitch` to
+`256·(note + transpose) + detune` (mod 2^16); (2) at the end of the update the channel pitch
+becomes `note_pitch + 256·instrument transpose` (mod 2^16), it is written — as the word
+`fmPitch pitch` to the channel's block/f-number registers 0xa4+id / 0xa0+id — exactly when it
+differs from the last written pitch, which it then replaces; (3) on the whole valid range
+(8 octaves) `fmPitch` is the table value with linear detune interpolation that
+`Spec/Schedule.fmWord` defines (the PSG counterpart `psgPitch = psgWord` is checked by the oracle only). -/
+theorem C07_pitch_value_partial :
+    (∀ (g : G) (c : Ch) (e : Event),
+      (noteStart g c e).2.1.notePitch = u16 ((e.param + c.var ev_TRANSPOSE) * 256 + c.var ev_DETUNE)) ∧
+    (∀ (c : Ch) (bank id : Nat), c.kind = .fm bank id →
+      (chPitch c).1.pitch = u16 ((c.notePitch : Int) + c.insTranspose * 256) ∧
+      (chPitch c).1.lastPitch = (chPitch c).1.pitch ∧
+      (chPitch c).2 = (if (chPitch c).1.pitch ≠ c.lastPitch then ymW bank 0xa0 id 0 (fmPitch (chPitch c).1.pitch) else [])) ∧
+    (∀ p : Nat, p < 96 * 256 → Schedule.fmWord p = some (fmPitch p)) := by
+  refine ⟨?_, ?_, ?_⟩
+  · intro g c e
+    unfold noteStart
+    simp only
+    split
+    · cases c.kind <;> rfl
+    · rfl
+  · intro c bank id hk
+    refine ⟨rfl, rfl, ?_⟩
+    unfold chPitch
+    simp only [vSetPitch, hk]
+  · have H : ∀ n, n < 96 → ∀ f, f < 256 → Schedule.fmWord ((256 * n + f : Nat) : Int) = some (fmPitch (256 * n + f)) := by
+      decide +kernel
+    intro p hp
+    have := H (p / 256) (by omega) (p % 256) (by omega)
+    rwa [Nat.div_add_mod] at this
+
 /-- **Tempo accumulator, closed form.**  `n` sequence updates at constant tempo `δ` from
 counter `c` play `(c + n(δ+1)) div 128` ticks and leave the counter `(c + n(δ+1)) mod 128`. -/
 theorem C07_tempo_closed_form (n c δ : Nat) (hc : c < 128) :
@@ -361,8 +402,10 @@ def InsAgree (d : Data) (t : Schedule.InsTab) : Prop :=
 /-- Every valid plain-subset song exports, the exported file parses, and the schedule oracle
 (key-on / key-off updates, pitch and attenuation at each key-on, extent and loop marker) finds
 no deviation.  `NoShortNote` excludes the known finding `short-note` (a note ending inside
-the update it starts in); the missing proof steps are `tick_delivery` (Player ↔ `perf`, from the C04
-refinement), the per-channel write lemmas and the loop-count lemma of `export_extent`. -/
+the update it starts in); proved pieces: `C07_tick_delivery`, `C07_key_frame_partial`,
+`C07_update_ticks`, `C07_pitch_value_partial`, `C07_log_on_grid`; missing: the composition over
+all updates and channels, slurs, PSG, the loop passes after the first and the loop-count lemma of
+`export_extent`. -/
 def C07_full_statement : Prop :=
   ∀ (d : Data) (song : Song) (tags : Vgm.Tags) (t : Schedule.InsTab),
     InsAgree d t → NoShortNote song →
